@@ -37,12 +37,12 @@ def _run_cli(cmd, text, timeout):
         os.unlink(path)
 
 
-def check_valid(pc, goal, want_model=True, all_backends=False):
+def check_valid(pc, goal, want_model=True, all_backends=False, z3_timeout_ms=None):
     """-> dict(verdict=proved|refuted|unknown, backend, ms, model (z3 ModelRef|None), detail)."""
     t0 = time.time()
     neg = z3.Not(goal)
     s = z3.Solver()
-    s.set('timeout', Z3_TIMEOUT_MS)
+    s.set('timeout', z3_timeout_ms or Z3_TIMEOUT_MS)
     s.add(*pc)
     s.add(neg)
     r = s.check()
